@@ -1680,8 +1680,15 @@ class H2Connection:
         Receive a headers frame on the connection.
         """
         # If necessary, check we can open the stream. Also validate that the
-        # stream ID is valid.
-        if frame.stream_id not in self.streams:
+        # stream ID is valid. Only a frame that would open a stream counts
+        # against the limit: one for a stream that was closed and forgotten
+        # (say, a response racing our RST_STREAM) is dealt with further down.
+        opens_stream = (
+            frame.stream_id not in self.streams and
+            not self._stream_id_is_outbound(frame.stream_id) and
+            frame.stream_id > self.highest_inbound_stream_id
+        )
+        if opens_stream:
             max_open_streams = self.local_settings.max_concurrent_streams
             if (self.open_inbound_streams + 1) > max_open_streams:
                 raise TooManyStreamsError(
